@@ -8,6 +8,19 @@ from ..expression import ast as sugar
 from . import ast as desugar
 
 
+def indexes_in_every_term(self: sugar.Expression) -> set[str]:
+    """Indexes mentioned by every additive term of the expression when read as a sum of products."""
+    match self:
+        case sugar.Add() | sugar.Subtract():
+            return indexes_in_every_term(self.left) & indexes_in_every_term(self.right)
+        case sugar.Multiply():
+            return indexes_in_every_term(self.left) | indexes_in_every_term(self.right)
+        case sugar.Tensor():
+            return set(self.indexes)
+        case _:
+            return set()
+
+
 @singledispatch
 def desugar_expression(
     self: sugar.Expression, contract_indexes: set[str], ids: Iterator[int]
@@ -46,7 +59,13 @@ def desugar_add(
     left_indexes = set(self.left.index_participants().keys()).intersection(contract_indexes)
     right_indexes = set(self.right.index_participants().keys()).intersection(contract_indexes)
 
-    intersection_indexes = left_indexes.intersection(right_indexes)
+    # A shared contraction can only be hoisted above the sum if every additive term on both
+    # sides mentions the index; a term lacking it must not be summed over it.
+    intersection_indexes = (
+        left_indexes.intersection(right_indexes)
+        .intersection(indexes_in_every_term(self.left))
+        .intersection(indexes_in_every_term(self.right))
+    )
 
     output = desugar.Add(
         desugar_expression(self.left, left_indexes - intersection_indexes, ids),
@@ -66,7 +85,12 @@ def desugar_subtract(
     left_indexes = set(self.left.index_participants().keys()).intersection(contract_indexes)
     right_indexes = set(self.right.index_participants().keys()).intersection(contract_indexes)
 
-    intersection_indexes = left_indexes.intersection(right_indexes)
+    # See desugar_add: only hoist a shared contraction that every additive term mentions.
+    intersection_indexes = (
+        left_indexes.intersection(right_indexes)
+        .intersection(indexes_in_every_term(self.left))
+        .intersection(indexes_in_every_term(self.right))
+    )
 
     output = desugar.Add(
         desugar_expression(self.left, left_indexes - intersection_indexes, ids),
